@@ -390,6 +390,8 @@ func sweepTokens(c *core.Ctx, judge judgeFn) {
 
 // ---------------------------------------------------------------- (c) operator / index forms, (d) producers x consumers
 
+const sourcePrelude = "id := {|x| x}\nkwf := {|a: 0, b: 1| [a, b, \\_]}\n"
+
 var infixOps = []string{"+", "-", "*", "/", "//", "%", "**", "==", "!=", "===", "!==", "<", ">", "<=", ">=", "<=>", "<<", ">>", "/&", "/|", "/^", "&&", "||"}
 var prefixOps = []string{"-", "+", "!", "/~", "*", "**"}
 
@@ -404,12 +406,24 @@ var producers = []string{
 
 var consumers = []string{
 	"§.p", "§.S", "§.repr", "§.foo", "§ + 1", "1 + §", "§ == §", "[§]", "[*§]", "{a: §}", "{**§}", "{§: 1}", "%{§: 1}", "%{1: §}", "%{**§}", "(§:3)", "(1:§)", "(1:3:§)",
-	"id(§)", "id(*§)", "id(**§)", "§(1)", "§.call", "1 if § else 2", "§ if true", "!§", "-§", "§@{|x| x}", "§${|a, x| x}", "[1, 2]@(§){|x| x}", "[1, 2]$(§)+", "\"a#{§}b\"", "x := §; x", "§[0]", "§['a]", "[1, 2][§]",
+	"id(§)", "id(*§)", "id(**§)", "kwf(**§)", "kwf(*§)", "kwf(**§, **{b: 2})", "kwf(**{b: 2}, **§)", "{|| \\_}(**§)", "{**§}.keys", "§@{|k, v| k}", "oo := {m: m{|k: 0| k}}; oo.m(**§)", "§(1)", "§.call", "1 if § else 2", "§ if true", "!§", "-§", "§@{|x| x}", "§${|a, x| x}", "[1, 2]@(§){|x| x}", "[1, 2]$(§)+", "\"a#{§}b\"", "x := §; x", "§[0]", "§['a]", "[1, 2][§]",
 	"§.bear", "§.bear({a: 1})", "§.new", "§.new(1)", "§.try", "§.A", "§.keys", "§.proto", "§.ancestors", "§.kindOf?(Int)", "raise §", "return §", "defer §", "§.p; §.p",
 }
 
+// conversion pipelines: odd inputs pushed through container conversions; the results are then consumed
+// like any other value (a conversion that forgets to normalise breaks an invariant a later consumer relies on)
+var oddInputs = []string{`[["a".bear, 1], ['b, 2]]`, `[[Str.bear.new("k"), 1]]`, "[[1, 2]]", "[[nil, 1]]", "[[[1], 2]]", `[["a"]]`, "[[]]", `["ab"]`, "[1, [2]]", `%{"a".bear: 1}`, "%{1: 2}", "%{nil: 1}",
+	"%{[1]: 2}", "{a: 1}", "{_p: 1}", `"a=1"`, `"[1]"`, "(1:3)", "3", "nil", `[['a, 1], ['a, 2]]`, `[[1.5, 1]]`, `[[true, 1]]`, `{a: 1}.bear`, `[{a: 1}.bear, 1]`, `[["a".bear.bear, 1]]`}
+var conversions = []string{".O", ".M", ".A", ".S", ".I", ".F", "@({}){|x| x}", "@(%{}){|x| x}", "@([]){|x| x}", ".items", ".keys", ".values", ".items.O", ".A.M", ".O.M", ".M.O", ".O.items.O", ".sym?", ".repr"}
+
 func sweepSources(c *core.Ctx, judge judgeFn) {
 	var cases []scase
+	allProducers := append([]string{}, producers...)
+	for _, in := range oddInputs {
+		for _, cv := range conversions {
+			allProducers = append(allProducers, in+cv)
+		}
+	}
 	pool := poolSrc
 	for _, x := range pool {
 		for _, p := range prefixOps {
@@ -446,7 +460,7 @@ func sweepSources(c *core.Ctx, judge judgeFn) {
 			}
 		}
 	}
-	for _, p := range producers {
+	for _, p := range allProducers {
 		for _, cs := range consumers {
 			cases = append(cases, scase{Mode: "producer-consumer", Src: strings.ReplaceAll(cs, "§", "("+p+")")})
 		}
@@ -457,7 +471,7 @@ func sweepSources(c *core.Ctx, judge judgeFn) {
 	panrun.FuelTicks, panrun.FuelDepth = 30000, 400
 	defer func() { panrun.FuelTicks, panrun.FuelDepth = saveT, saveD }()
 	n := 0
-	tk.Batched(c, 400, "id := {|x| x}\n", func(emit func(scase)) {
+	tk.Batched(c, 400, sourcePrelude, func(emit func(scase)) {
 		for _, cs := range cases {
 			emit(cs)
 		}
@@ -480,7 +494,7 @@ func sweepSources(c *core.Ctx, judge judgeFn) {
 			c.Outcome("forms:syntax")
 			return
 		}
-		judge(s.Src, s, "id := {|x| x}\nzz := {||\n"+s.Src+"\n}\nzz().p\n", o, s.Mode)
+		judge(s.Src, s, sourcePrelude+"zz := {||\n"+s.Src+"\n}\nzz().p\n", o, s.Mode)
 	})
 	// top-level evaluation of every producer (program result handed to the REPL / runSource)
 	r := c.R()
@@ -521,7 +535,7 @@ func replay(c *core.Ctx, raw json.RawMessage) {
 	}
 	var s scase
 	json.Unmarshal(raw, &s)
-	o := r.EvalSrc("id := {|x| x}\n"+s.Src, s.Stdin)
+	o := r.EvalSrc(sourcePrelude+s.Src, s.Stdin)
 	if o.Kind == "value" {
 		o = r.Guard(nil, "", func() object.PanObject { afterUse(r, o.Val); return o.Val })
 	}
